@@ -145,6 +145,7 @@ type c04World struct {
 	A, B, C *xibctesting.TestChain
 	pathAB, pathAC *xibctesting.Path
 	self  string
+	extra []string // extra destinations of wide histories (TSS clients; prefix-related names and case siblings)
 	tss   string // name of the TSS client on A
 	tssAddr string // bech32 of the TSS relayer (= A's sender)
 	tok   []common.Address // ERC-20 tokens on A (tok[0], tok[1] plain; bound token for receives = bnd)
@@ -212,8 +213,7 @@ func newC04World(t *testing.T) *c04World {
 	w.tssAddr = w.A.SenderAcc.String()
 	ctx := w.A.GetContext()
 	c04Must(w.A.App.XIBCKeeper.ClientKeeper.CreateClient(ctx, w.tss, &tsstypes.ClientState{TssAddress: w.tssAddr}, &tsstypes.ConsensusState{}))
-	w.A.App.XIBCKeeper.ClientKeeper.RegisterRelayers(ctx, w.tssAddr, []string{w.tss, w.B.ChainID, w.C.ChainID},
-		[]string{"0x" + strings.Repeat("11", 20), w.B.SenderAcc.String(), w.C.SenderAcc.String()})
+	w.registerRelayers()
 
 	// tokens
 	for i := 0; i < 2; i++ {
